@@ -29,6 +29,9 @@ CLAIMED = {
     "C15": ("Lean 4 theorems: the Go ring lookup (sorted by Less, sort.Search modulo length) equals Carbon's rule on the set of entries, for any position function; order independence; minimal movement; + regenerated constants/shape facts + three-way differential validation (real route, Lean model with Lean MD5, python transcription of Carbon)",
             "proof: Crng.Props.C15.lookup_eq_carbon, owner_unique, order_independent, one_destination, add_minimal, remove_minimal, addr_split (kernel-checked for every node list, replica count and position function). Regenerated obligations (Crng.Tie.C15): 100 replicas; replica key pieces; first two MD5 bytes big-endian; Less; Search predicate >= and modulo; hasher rebuilt by constructor/Add/DelDestination; key = text before the first space. Correspondence (spec-exact): the real ConsistentHashing route on node sets with/without ports and instances (1..30 nodes, so that different nodes share ring positions), permutations of the listing order, add/remove histories; Lean MD5 vs crypto/md5. Monitor: carbon 0.9.x ConsistentHashRing transcribed in python, plus minimal-movement checks.",
             "trusted: Lean kernel; harness+driver plumbing; Carbon's algorithm as transcribed (0.9.x: insort of (position, (server, instance)), bisect_left, None sorts before strings); sort.Sort returns a Less-sorted permutation.", "§5 C15"),
+    "C16": ("Lean 4 theorems: unpickle(pickle dp) = dp for all datapoints (byte-level model of og-rek's output + a pickle VM), storage-schemas rule selection, presented name, record fields + regenerated skeleton facts + differential validation incl. CPython's unpickler",
+            "proof: Crng.Props.C16.unpickle_pickle, length_prefix, rule_selection, presented_untagged, presented_tagged, record_fields. Regenerated obligations (Crng.Tie.C16): Pickle / ParseDataPoint / parseMetric skeletons (tuple shape, big-endian length, tag sort, presented-name construction, first retention, Validate), priority key p<<32-i, Less >=, first match. Correspondence (spec-exact): ParseDataPoint+Pickle bytes identical to the model (names around 228/255/256 bytes, timestamps around 2^31/2^32, every float spelling, unrepresentable timestamps skipped), and python's pickle.loads of the real bytes returns the datapoint; real getSchemas+parseMetric vs the model on generated schema files (anchored/unanchored patterns, priorities, old/new retention syntax, missing default, bad retentions) x tagged/untagged/invalid lines.",
+            "trusted: Lean kernel; harness+driver plumbing; og-rek's encoder and metrictank's MetricData.Validate/EatDots are transcribed and validated differentially; ini parsing, msgp/snappy encoding of the record on the wire are external (the POST bodies are decoded in C17's harness); ASCII names/tags.", "§5 C16"),
     "C18": ("Lean 4 theorems about Go slice headers over shared backing arrays (snapshot isolation under safe update idioms; refinement of list operations) + regenerated idiom/lock facts + white-box differential validation",
             "proof: Crng.Props.C18.isolation, ops_refine_list, deleteInPlace_breaks. Regenerated obligations (Crng.Tie.C18): the idiom of each of the eleven assignments to a published slice is safe in the model; every mutator locks first, defers the unlock and does Load..Store; Dispatch/DispatchAggregate Load once, no lock; index/key guards; destination filter under its mutex. Correspondence (spec-exact): admin-op histories (add/delete by index and key, out-of-range indices, unknown keys) on a real table and route; the slice headers a dispatcher would hold are read out of the atomic.Value by reflection and re-read after later operations, compared with the model executing the extracted idioms; model-free monitor: a held snapshot never changes, the current view follows list semantics, bad indices are rejected.",
             "trusted: Lean kernel; harness+driver plumbing; the extractor's idiom classification; schedules are interleavings of element reads with whole mutators (mutex scope extracted); the aggregator list is covered by the idiom facts only; the dispatcher-blocked-on-a-shut-down-destination schedule is a documented known limitation (DESIGN §6 #8).", "§5 C18"),
